@@ -160,6 +160,45 @@ fn token_based(block: &Block, code: &str) -> String {
     generator.into_string()
 }
 
+/// token-based generation together with what was written, piece by piece: every primitive
+/// write of the generator (token contents, trivia, symbols, padding new lines, uncomment
+/// breaks, raw spaces) in order — everything except the separators of the space rule (`space`
+/// events) and the bookkeeping `reference` events. Since /repo 7ae2b90 the space rule is skipped
+/// between two tokens read from adjacent source ranges, so a tree whose references were replaced
+/// by contents may legitimately get a few more single-space separators than the referenced tree.
+fn token_based_pieces(block: &Block, code: &str) -> (String, Vec<(String, String, i64)>, usize) {
+    hooks::trace_start();
+    let text = token_based(block, code);
+    let trace = hooks::trace_take();
+    let spaces = trace.iter().filter(|op| op.op == "space").count();
+    let pieces = trace
+        .into_iter()
+        .filter(|op| op.op != "space" && op.op != "reference")
+        .map(|op| (op.op.to_owned(), op.text, op.detail))
+        .collect();
+    (text, pieces, spaces)
+}
+
+/// `longer` is `shorter` with exactly `extra` single spaces inserted (and nothing else changed)
+fn differs_only_by_inserted_spaces(shorter: &str, longer: &str, extra: usize) -> bool {
+    let (a, b) = (shorter.as_bytes(), longer.as_bytes());
+    if b.len() != a.len() + extra {
+        return false;
+    }
+    let (mut i, mut j) = (0, 0);
+    while j < b.len() {
+        if i < a.len() && a[i] == b[j] {
+            i += 1;
+            j += 1;
+        } else if b[j] == b' ' {
+            j += 1;
+        } else {
+            return false;
+        }
+    }
+    i == a.len()
+}
+
 /// the error values must name a file of the run
 fn names_a_file(message: &str, case: &Case) -> bool {
     message.contains(ENTRY)
@@ -342,19 +381,43 @@ fn run_case(case: &Case) -> CaseResult {
                     return Err(("token-out-of-range".to_owned(), format!("{:?}", bad)));
                 }
             }
-            let before = token_based(&block, text);
             let mut replaced = block.clone();
             hooks::rule_replace_referenced_tokens(&mut replaced, text);
             let left = tokens_of_debug(&format!("{:?}", replaced)).map_err(|e| ("harness".to_owned(), e))?;
             if let Some(tok) = left.iter().find(|t| t.has_reference()) {
                 return Err(("reference-survives".to_owned(), tok.sexp()));
             }
+            // what the generator writes for the replaced tree under a FOREIGN code must be what it
+            // writes for the referenced tree under its own code: the same pieces (token contents,
+            // trivia, symbols, padding) in the same order — the real-code side of
+            // `replace_referenced_preserves_text` — and a text that differs at most by the
+            // single-space separators the space rule adds once tokens no longer know their
+            // source range (never fewer separators, nothing else)
+            let (before, before_pieces, before_spaces) = token_based_pieces(&block, text);
             for other in ["", "\u{e9}"] {
-                let after = token_based(&replaced, other);
-                if after != before {
+                let (after, after_pieces, after_spaces) = token_based_pieces(&replaced, other);
+                if after_pieces != before_pieces {
+                    let at = before_pieces.iter().zip(after_pieces.iter()).position(|(x, y)| x != y);
                     return Err((
                         "reference-survives".to_owned(),
-                        format!("text changed when generated against {:?}: {:?} vs {:?}", other, after, before),
+                        format!(
+                            "written pieces changed when generated against {:?}: first difference at {:?}: {:?} vs {:?}",
+                            other,
+                            at,
+                            at.and_then(|i| after_pieces.get(i)),
+                            at.and_then(|i| before_pieces.get(i))
+                        ),
+                    ));
+                }
+                if after_spaces < before_spaces
+                    || !differs_only_by_inserted_spaces(&before, &after, after_spaces - before_spaces)
+                {
+                    return Err((
+                        "reference-survives".to_owned(),
+                        format!(
+                            "text changed by more than space-rule separators when generated against {:?}: {:?} vs {:?}",
+                            other, after, before
+                        ),
                     ));
                 }
             }
@@ -414,48 +477,6 @@ fn classify<'k>(known: &'k [Known], failure: &Failure) -> Option<&'k Known> {
             .map(|p| !k.file.is_empty() && p.file().ends_with(&k.file) && p.message.starts_with(&k.message_prefix))
             .unwrap_or(false),
         "reference-survives-method-types" => failure.kind == "reference-survives" && failure.method_types,
-        "reparse-remove-spaces-comments" => {
-            failure.kind == "reparse"
-                && failure.text_has_comment
-                && failure
-                    .config
-                    .as_deref()
-                    .and_then(|c| serde_json::from_str::<Value>(c).ok())
-                    .map(|v| {
-                        v["generator"].as_str().map(|g| g.starts_with("retain")).unwrap_or(false)
-                            && v["rules"].as_array().into_iter().flatten().any(|r| {
-                                r.as_str().or(r["rule"].as_str()) == Some("remove_spaces")
-                            })
-                    })
-                    .unwrap_or(false)
-        }
-        "reparse-remove-spaces-number-dot" => {
-            let chars: Vec<char> = failure.text.chars().collect();
-            let pattern = (0..chars.len()).any(|i| {
-                chars[i] == '.'
-                    && i > 0
-                    && chars[i - 1].is_ascii_digit()
-                    && chars.get(i + 1).map(|c| c.is_whitespace()).unwrap_or(false)
-                    && chars[i + 1..]
-                        .iter()
-                        .find(|c| !c.is_whitespace())
-                        .map(|c| c.is_alphabetic() || *c == '_' || *c == '.')
-                        .unwrap_or(false)
-            });
-            pattern
-                && failure.kind == "reparse"
-                && failure
-                    .config
-                    .as_deref()
-                    .and_then(|c| serde_json::from_str::<Value>(c).ok())
-                    .map(|v| {
-                        v["generator"].as_str().map(|g| g.starts_with("retain")).unwrap_or(false)
-                            && v["rules"].as_array().into_iter().flatten().any(|r| {
-                                r.as_str().or(r["rule"].as_str()) == Some("remove_spaces")
-                            })
-                    })
-                    .unwrap_or(false)
-        }
         "pipeline-on-uncovered-tree" => {
             failure.uncovered_tree && failure.config.is_some() && failure.kind != "hang" && failure.stage != "configuration"
         }
